@@ -50,13 +50,13 @@ from ..lib_gridkeys import key, flip_byte
 
 LEVEL = "model_checking"
 ASSUMPTIONS = [
-    "2 signing keys, seqnums {1,2,3,absent,'2'}, 2 payloads, batches of <= 2 announcements; the client's decisions compare seqnums and whole dicts only, no magnitude-dependent branch",
+    "2 signing keys, seqnums {0,1,2,-1,absent,'2'}, 2 payloads, batches of <= 2 announcements; the client's decisions compare seqnums and whole dicts only, no magnitude-dependent branch",
     "state = _inbound_announcements (announcement per (service, key string)); merged states have equal futures because nothing else is read by got_announcements/_process_announcement",
     "an accepted strictly newer (or first) correctly signed announcement must be stored and delivered: this is what 'processed' is taken to mean in the statement's last clause",
     "cache file replaced by an in-memory object with setContent/open; the cache is write-only here: real yamlutil.safe_dump runs in the transition under test, a cheap serialiser while the history prefix is replayed",
 ]
 
-SEQS = [1, 2, 3, None, "2"]
+SEQS = [0, 1, 2, -1, None, "2"]   # 0 and -1: falsy / negative values must obey the same ordering rule
 PAYS = ["p", "q"]
 KEYS = ["K1", "K2"]
 FORGE_KINDS = ["wrong-key", "msg-flip", "sig-flip", "sig-not-base32", "key-not-base32", "sig-no-prefix",
